@@ -1,5 +1,7 @@
 import BSEModel.Header
 import BSEProofs.Lemmas.Resplit
+import BSEProofs.Lemmas.ReadBack
+import BSEGen.ReaderPrune
 /-! # C14 — the information header can never change or corrupt the payload -/
 namespace BSE.Props.C14
 open BSE.Header BSE.Gen.Writers
@@ -100,5 +102,73 @@ theorem header_lines_are_marked (e : String × Option String × Option (List Str
 
 example : splitlinesKeep "ab\ncd\r\ne f".toList = ["ab\n".toList, "cd\r\n".toList, "e ".toList, "f".toList] := by decide +kernel
 example : commentBlock ['!'] "a\nb\n".toList = "!a\n!b\n".toList := by decide +kernel
+
+/-! ## reading the headed text back
+
+Every reader begins with `prune_lines(text.splitlines(), skipchars)` (`readerLines`); the characters are regenerated from
+the reader modules (`BSEGen/ReaderPrune.lean`).  If the comment marker of the format starts with one of them, what the parser
+goes on with is the same for the headed and the bare text — hence the same data, or the same error. -/
+
+open BSE.Notation (isPySpace) in
+/-- **the reader sees the same lines with and without the header**: for every format of the writer map whose comment marker
+starts with a (non-blank) character the reader prunes, every payload `body`, every header text `h` that ends with a line feed
+(the header builder ends it with its rule line and `\n`; the harness checks that on every explored text), spherical or cartesian -/
+theorem readBack_headed (e : String × Option String × Option (List String) × String) (he : e ∈ writerMap)
+    (c : String) (hc : e.2.1 = some c) (c0 : Char) (cs : Str) (hc0 : c.toList = c0 :: cs)
+    (skip : List Char) (hskip : skip.contains c0 = true) (hsp : isPySpace c0 = false)
+    (body h : Str) (hne : h ≠ []) (hlf : h.getLast? = some '\n') (cart : Bool) :
+    (assemble e.1 body (some h) cart).map (readerLines skip) = (assemble e.1 body none cart).map (readerLines skip) := by
+  obtain ⟨hcne, hall⟩ := markers_have_no_break e he c hc
+  have hnb : NoBreak c.toList := by
+    intro x hx
+    have := List.all_eq_true.1 hall x hx
+    simpa using this
+  have hblk : (commentBlock c.toList h).getLast? = some '\n' := by rw [commentBlock_last c.toList h hne]; exact hlf
+  have hfound : commentOf e.1 = some (some c) := by
+    have : ∀ e' ∈ writerMap, ∀ c', e'.2.1 = some c' → commentOf e'.1 = some (some c') := by decide
+    exact this e he c hc
+  have key : ∀ rest : Str, readerLines skip (commentBlock c.toList h ++ rest) = readerLines skip rest :=
+    fun rest => readerLines_block skip c.toList c0 cs hc0 hskip hsp hnb h hne hblk rest
+  have key2 : readerLines skip (commentBlock c.toList h ++ ['\n', '\n'] ++ body) = readerLines skip body := by
+    rw [List.append_assoc, key]
+    exact readerLines_lf_lf skip body
+  -- the psi4 line in front of both texts ends with line feeds: the lines behind it are read separately
+  have pre : ∀ (p x y : Str), p.getLast? = some '\n' → readerLines skip x = readerLines skip y →
+      readerLines skip (p ++ x) = readerLines skip (p ++ y) := by
+    intro p x y hp hxy
+    unfold readerLines at *
+    rw [splitlinesKeep_append_lf p x hp, splitlinesKeep_append_lf p y hp, pruneLines_append, pruneLines_append, hxy]
+  unfold assemble
+  simp only [hfound, Option.map_some]
+  congr 1
+  by_cases hg : (e.1 == "gaussian94lib") = true
+  · by_cases hp : (e.1 == "psi4") = true
+    · have h1 : e.1 = "gaussian94lib" := by simpa using hg
+      have h2 : e.1 = "psi4" := by simpa using hp
+      rw [h1] at h2; exact absurd h2 (by decide)
+    · simp only [hg, hp, if_true, Bool.false_eq_true, if_false]
+      exact key body
+  · by_cases hp : (e.1 == "psi4") = true
+    · simp only [hg, hp, if_true, Bool.false_eq_true, if_false]
+      cases cart
+      · simp only [Bool.false_eq_true, if_false]
+        exact pre ("spherical".toList ++ ['\n', '\n']) _ _ (by decide) key2
+      · simp only [if_true]
+        exact pre ("cartesian".toList ++ ['\n', '\n']) _ _ (by decide) key2
+    · simp only [hg, hp, Bool.false_eq_true, if_false]
+      exact key2
+
+/-- the formats whose reader prunes the lines behind the writer's comment marker — among them the three whose read-back
+must succeed (regenerated from `writers/write.py` and the reader modules) -/
+theorem readback_formats :
+    (writerMap.filter fun e => match e.2.1, (BSE.Gen.ReaderPrune.readerSkip.find? (·.1 == e.1)).bind (·.2) with
+      | some c, some s => (match c.toList with | c0 :: _ => s.toList.contains c0 && !BSE.Notation.isPySpace c0 | [] => false)
+      | _, _ => false).map (·.1)
+      = ["nwchem", "gaussian94", "molcas", "molcas_library", "demon2k", "gamess_us", "turbomole", "molpro", "libmol", "veloxchem"] := by
+  decide
+
+/-- non-vacuity: a two-line header in front of an NWChem payload -/
+example : readerLines ['#'] "#----\n# Basis X\n#----\n\n\nBASIS \"ao basis\" SPHERICAL PRINT\nH    S\n".toList
+    = ["BASIS \"ao basis\" SPHERICAL PRINT".toList, "H    S".toList] := by decide +kernel
 
 end BSE.Props.C14
